@@ -1,5 +1,5 @@
 (* Glue between the sx line format and the C03 account model (unverified, trusted, small). *)
-From YV Require Import Common.Tac Common.Sx C03.C03Model C03.C03WorldModel.
+From YV Require Import Common.Tac Common.Sx C03.C03Model C03.C03WorldModel C03.C03ChainModel.
 Local Open Scope N_scope.
 
 Definition n_at (s : sx) (i : nat) : N := sx_get_n (sx_nth s i).
@@ -81,4 +81,14 @@ Definition run_world (arg : sx) : sx :=
   let jids := map sx_get_n (sx_get_l (sx_nth arg 1)) in
   let acts := map action_of (sx_get_l (sx_nth arg 2)) in
   let '(w, outs) := wrun groups (winit jids) acts in
+  SL [SL (map (fun x => SL [SN (fst x); SL (map sx_output (snd x))]) outs); SN (N.of_nat (length (w_queue w)))].
+
+(* DIAGNOSIS ONLY: the same world with the memoised distribution message (C03ChainModel.pos_cached, refuted by
+   C03_chain_cached_position_refuted).  When the world model and the code disagree, the harness asks whether the code
+   behaves like this variant and says so in the replay record. *)
+Definition run_world_cached (arg : sx) : sx :=
+  let groups := map (fun g => (n_at g 0, map sx_get_n (sx_get_l (sx_nth g 1)))) (sx_get_l (sx_nth arg 0)) in
+  let jids := map sx_get_n (sx_get_l (sx_nth arg 1)) in
+  let acts := map action_of (sx_get_l (sx_nth arg 2)) in
+  let '(w, outs) := wrun_v pos_cached groups (winit jids) acts in
   SL [SL (map (fun x => SL [SN (fst x); SL (map sx_output (snd x))]) outs); SN (N.of_nat (length (w_queue w)))].
